@@ -28,8 +28,13 @@ def probe_steps(rng_seed, cfg, nodes):
 def session_lines(rng, kind, cfg_valid_dir, bad_dir, cfgA, nodesA, fi):
     """-> (lines, expect_start_ret)"""
     ls = ['bus clear']
-    if kind == 'normal':
-        ls += cfggen.bus_lines(cfgA, nodesA) + ['bus brackets 1', f'bus cap {rng.choice([64, 100, 200])}', 'debug 0', f'start {cfg_valid_dir} {fi}', 'quiesce']
+    if kind == 'nodevice':
+        ls += ['debug 0', f'start_serial /dev/no-such-serial-device {cfg_valid_dir} {fi}']
+        return ls, 1
+    if kind in ('normal', 'serial'):
+        # 'serial': the same session through bidib_start_serial - the device "/dev/simbus" is served by the simulated bus (link-time open/read/write)
+        startline = f'start {cfg_valid_dir} {fi}' if kind == 'normal' else f'start_serial /dev/simbus {cfg_valid_dir} {fi}'
+        ls += cfggen.bus_lines(cfgA, nodesA) + ['bus brackets 1', f'bus cap {rng.choice([64, 100, 200])}', 'debug 0', startline, 'quiesce']
         m = statemodel.Model(cfgA, nodesA)
         for i in range(rng.randrange(0, 20)):
             if rng.random() < 0.3:
@@ -108,7 +113,7 @@ def gen_scenario(ctx, k):
             sessions.append(('normal', exp, fi))
     else:
         for i in range(rng.randrange(1, 6)):
-            kind = rng.choice(['normal', 'normal', 'debug', 'silent', 'badcfg', 'nullcb'])
+            kind = rng.choice(['normal', 'normal', 'serial', 'serial', 'debug', 'silent', 'badcfg', 'nullcb', 'nodevice'])
             fi = rng.choice([0, 0, 1, 3])
             ls, exp = session_lines(rng, kind, dA, dB, cfgA, nodesA, fi)
             sc.add(f'mark sess{i}', *ls)
@@ -221,8 +226,19 @@ def evaluate(ctx, r, rf, cfg, nodes, sessions, mode, meta):
     # start results per session
     rets = [e for e in ev if e.get('e') == 'ret' and e.get('f') == 'bidib_start_pointer']
     for i, (kind, exp, fi) in enumerate(sessions):
-        if i < len(rets) and kind in ('normal', 'debug', 'silent', 'badcfg', 'nullcb'):
-            pass
+        mi = next((k for k, e in enumerate(ev) if e.get('e') == 'mark' and e.get('m') == f'sess{i}'), None)
+        if mi is None:
+            continue
+        fr = next((e for e in ev[mi:] if e.get('e') == 'ret' and e.get('f') == 'bidib_start_pointer'), None)
+        if fr is None:
+            continue
+        ctx.count('sessions_' + kind)
+        if fr.get('r') != exp:
+            ctx.violation('start-result', kind, f'session {i} ({kind}, after {[k_ for k_, _e, _f in sessions[:i]]}): start returned {fr.get("r")}, expected {exp}', r.scenario, r.flavour, meta)
+            return
+        if exp == 1 and fr.get('live_threads'):
+            ctx.violation('threads-alive', 'after-failed-start', f'session {i} ({kind}): {fr.get("live_threads")} library threads alive after the failed start', r.scenario, r.flavour, meta)
+            return
     # start-while-running must do nothing
     for a, b in (('dbl_start', 'dbl_start_end'), ('dbl_stop', 'dbl_stop_end')):
         idx = [i for i, e in enumerate(ev) if e.get('e') == 'mark' and e.get('m') == a]
